@@ -198,6 +198,8 @@ def write_evidence(prop, tier, seed, runs, c, wall, index, violation_lines, fall
                 solver_ms[u.unit] = {'smt_ms': u.res.smt_ms, 'total_ms': u.res.total_ms, 'wall_s': round(u.wall_s, 2),
                                      'verus_functions_verified': u.res.verified,
                                      'slowest': sorted(((k, v['time_micros'] // 1000) for k, v in u.res.func_stats.items()), key=lambda x: -x[1])[:5]}
+                if getattr(u.res, 'retries', None):
+                    solver_ms[u.unit]['isolated_retries_after_rlimit'] = u.res.retries
         else:
             for rec in getattr(u, 'functions', []):
                 fns.append(rec)
@@ -259,6 +261,8 @@ def dev_unit(unit, rebaseline, seed=0):
         print('  canary:', u.canary)
     if getattr(u, 'res', None) is not None:
         print(f'  verus: verified={u.res.verified} errors={u.res.error_count} smt_ms={u.res.smt_ms} cached={getattr(u.res, "cached", False)}')
+        for rt in getattr(u.res, 'retries', None) or []:
+            print('  retry (isolated, after rlimit):', rt)
     if rebaseline:
         base = R.load_json(BASELINE, {})
         known_all = R.load_json(KNOWN, {'findings': []})
